@@ -292,7 +292,7 @@ func genOidcJSON(r *Run, full bool, wild bool) J {
 		o["proxy_uri"] = pick(rng, []string{"http://proxy:3128", "http://proxy:3128", "%zz"})
 	}
 	if rng.Intn(6) == 0 {
-		o["cookie_name_prefix"] = pick(rng, []string{"app", "a b", "x;y"})
+		o["cookie_name_prefix"] = pick(rng, []string{"app", "a b", "x;y", "a=b", "ok-1_2.3", "tab\tbed", "ü", "(x)", "$%&'*+-.^_`|~", "x; Domain=evil.example", "q\"uote", "back\\slash"})
 	}
 	if rng.Intn(6) == 0 {
 		o["absolute_session_timeout"], o["idle_session_timeout"] = rng.Intn(3)*100, rng.Intn(3)*50
